@@ -209,7 +209,11 @@ def memoer_one_received(B):
         dup = len(its) == len(s["gns"])
         # stored iff its number is new for this memo id
         isnew = z3.And(*[gn.t != x.t for x in s["gns"]])
-        B.prove("gram-stored-iff-its-number-is-new(first-only)", isnew == (not dup), top=True, props=["C20"])
+        # authenticity at MEMO level: pick() verified the gram for the signer `vid` it names (contracts/c22_pick.py); the memo is
+        # delivered under the signer recorded with its FIRST gram, so a gram verified for anybody else must not be fused into it
+        same_signer = vid.t == s["vid"].t
+        B.prove("a-gram-is-fused-only-if-it-verified-for-the-memos-recorded-signer", z3.Implies(z3.BoolVal(not dup), same_signer), top=True, props=["C22"])
+        B.prove("gram-stored-iff-its-number-is-new-and-its-signer-is-the-memos(first-only)", z3.And(isnew, same_signer) == (not dup), top=True, props=["C20", "C22"])
         if not dup:
             B.prove("new-gram-stored-under-its-number", len(its) == len(s["gns"]) + 1 and its[-1][0] is gn and its[-1][1] is picked.get("buf"), top=True)
         B.prove("signer-and-source-first-only", lookup(ctx, st["vids"], s["mid"]) is s["vid"] and lookup(ctx, st["sources"], s["mid"]) is s["src"], top=True, props=["C22", "C20"])
@@ -219,7 +223,8 @@ def memoer_one_received(B):
         if s["count"] is not None:
             B.prove("count-first-only", c1 is s["count"], top=True)
         else:
-            B.prove("count-recorded-iff-zeroth-gram", (c1 is gc) if zeroth else c1 is None, top=True)
+            B.prove("count-recorded-iff-zeroth-gram-of-the-memos-signer",
+                    z3.If(same_signer, z3.BoolVal((c1 is gc) if zeroth else c1 is None), z3.BoolVal(c1 is None)), top=True)
     B.prove("canary:always-a-new-memo-id", owner is None)        # must FAIL (vacuity guard); last
 
 
